@@ -20,20 +20,31 @@ RULE = ('random cases: 1-4 balanced reactions (null space of the C/H/O formula m
         'subset package and on a superset package (extra inert with/without flow; with flow the UndefinedChemicalAlias refusal is counted); items, iteration items and slices of a set '
         'applied instead of the set; sibling appliers force_reaction (judged when the model is feasible), conversion(material) (returned change = X*feed_r*nu) and '
         'ReactionSystem.reactant_flux (= extent of the addressed member on the running composition); a co-reactant fed in exactly the amount consumed (zero up to round-off). '
+        'Histories (gen_hist, streams of the own / a permuted / a subset package): the reaction objects are changed between construction and the call - Reaction.basis set in place (and back again) '
+        'on a single reaction, on members BEFORE the set / system is built (all: consistent; some: the constructor refuses) and AFTER it was built (some or all members, direct members of a system or members of its '
+        'set parts; then the container either refuses or acts like its definition: species / mass / atoms judged on a normal return), the refused setters of sets / items / set parts, a re-based copy of an item or member '
+        '(the container acts as before, the copy like the member), conversions set through the set / an item / the system / a part / a member Reaction; optionally after a first call; appliers call / force_reaction / '
+        'conversion / reactant_flux. '
         'non-trivial = some conversion in (0,1] with non-zero reactant feed, >=3 species, normal return; distinct = hash of the case')
 MIN_NONTRIVIAL = {'quick': 500, 'thorough': 20000}
 ASSUMPTIONS = ['element counts come from a table written in the harness and cross-checked against the library at start-up',
                'between a predicted negative total of -1e-9 and -1e-13 (the library threshold is -1e-12) neither raising nor returning is judged',
                'force_reaction (documented to ignore feasibility) is judged only when the dense model predicts no negative flow; non-negativity is not demanded of it',
                'with a co-reactant fed in exactly the amount consumed (added boundary branch) an InfeasibleRegion is counted, not judged: round-off of the flows decides the sign',
-               'a stream carrying a chemical the reaction package does not know is refused by the library (UndefinedChemicalAlias): counted, not judged']
+               'a stream carrying a chemical the reaction package does not know is refused by the library (UndefinedChemicalAlias): counted, not judged',
+               'a set / system whose member reactions were re-based in place after it was built: an error naming the basis, or InfeasibleRegion, is a refusal (counted, nothing demanded of the stream afterwards); '
+               'a normal return is judged against the reactions as defined (both bases give the same result on a stream); feeds the model finds infeasible are not judged in that state',
+               'reactant_flux of such a system: a refusal is counted; a returned amount may be in the units of either basis (the documentation does not say which)',
+               'a conversion set on a Reaction object that is a DIRECT member of a ReactionSystem is expected to take effect (the system holds the very objects); conversions set on Reaction objects a set was built from are not exercised']
 
 
 def required(tier):
     return ['target:multistream', 'single', 'parallel', 'series', 'system', 'basis-equivalence', 'target:stream', 'target:stream-foreign', 'target:sv', 'target:nd',
             'target:sa', 'target:nd2', 'must-raise', 'phase-tagged',
             'set:one-member', 'system:one-part', 'form:str-int', 'form:auto-reactant', 'form:auto-phase', 'phases:solid', 'phases:three', 'phases:Ll', 'target:stream.mol', 'target:stream.mass',
-            'target:stream-subset', 'target:stream-superset', 'sub:item', 'sub:iter', 'sub:slice', 'call:force', 'conversion', 'reactant-flux', 'feed:co-reactant-exactly-consumed', 'combined:+/mixed-basis', 'combined:sum/mixed-basis']
+            'target:stream-subset', 'target:stream-superset', 'sub:item', 'sub:iter', 'sub:slice', 'call:force', 'conversion', 'reactant-flux', 'feed:co-reactant-exactly-consumed', 'combined:+/mixed-basis', 'combined:sum/mixed-basis',
+            'hist:self-basis', 'hist:member-basis-after', 'hist:member-basis-before', 'hist:all-members-rebased-before', 'hist:some-members-rebased-before', 'hist:refused-setter', 'hist:item-copy-rebased', 'hist:X-setter',
+            'hist:roundtrip', 'hist:set-member', 'hist:system-direct-member', 'hist:system-set-part-member', 'hist:stale-container', 'hist:after-first-call', 'hist:tagged', 'hist:call:force', 'hist:call:conversion', 'hist:call:flux']
 
 
 PHASE_SETS = [('g', 'l')] * 6 + [('l', 's'), ('L', 'l'), ('g', 'l', 's'), ('L', 'g', 'l')]      # sorted the way the library sorts phases
@@ -596,9 +607,383 @@ def run_sum(case, rec):
     rec.mark_nontrivial(case_hash(case))
 
 
+# ---------------------------------------------------------------------------------------------------------------------
+# histories: the reaction objects are changed through their documented setters / copies BETWEEN construction and the call.
+# A Reaction re-based in place (rxn.basis = ...) is the same reaction: on a stream it acts as before. A set / system built from Reaction objects whose
+# members are re-based (before / after the container was built, there and back again), whose items / parts refuse the setter, whose items are copied and the copy
+# re-based, or whose conversions are set through the container / an item / a member must - whenever the call returns normally - still conserve mass and atoms and
+# act like the reactions it was defined from; a container that notices the inconsistency and raises is a refusal (counted, not judged).
+
+def leaves_of(case):
+    return case['members'] if case['comb'] != 'system' else [r for m in case['members'] for r in m['rx']]
+
+
+def gen_hist(rng):
+    while True:
+        case = gen_case(rng)
+        if case.get('exact'): continue
+        if case['comb'] != 'system' and rng.random() < 0.3: continue        # systems (the container that holds the very objects it was given) a little more often than in gen_case
+        break
+    for k in ('sub', 'call', 'flux'): case.pop(k, None)
+    if case['target'] not in ('stream', 'stream-foreign', 'stream-subset'):          # histories are judged on streams (a bare array has no basis of its own)
+        case['target'] = rng.choice(['stream', 'stream', 'stream-foreign']); case.pop('pkg', None); case.pop('extra_flow', None)
+    case['t'] = 'hist'
+    comb = case['comb']; members = case['members']; leaves = leaves_of(case); n = len(leaves)
+    if comb == 'system':
+        part_of = [i for i, m in enumerate(members) for _ in m['rx']]
+        direct = [k for k in range(n) if members[part_of[k]]['k'] == 'single']
+        inset = [k for k in range(n) if members[part_of[k]]['k'] != 'single']
+        setparts = [i for i, m in enumerate(members) if m['k'] != 'single']
+    if comb == 'single': kind = rng.choice(['self-basis'] * 3 + ['X-setter'])
+    else: kind = rng.choice(['member-basis-after'] * 6 + ['member-basis-before'] * 2 + ['refused-setter', 'item-copy-rebased', 'X-setter', 'X-setter'])
+    if comb == 'system' and kind in ('refused-setter', 'item-copy-rebased') and not setparts: kind = 'member-basis-after'
+    h = {'kind': kind, 'warm': rng.random() < 0.3}
+    if kind in ('self-basis', 'member-basis-after'): h['roundtrip'] = rng.random() < 0.25
+    if kind == 'member-basis-after':
+        pool = list(range(n))
+        if comb == 'system':
+            u = rng.random()
+            if u < 0.55 and direct: pool = direct
+            elif u < 0.85 and inset: pool = inset
+        h['which'] = sorted(rng.sample(pool, rng.randrange(1, len(pool) + 1)))
+    elif kind == 'member-basis-before':
+        h['which'] = list(range(n)) if (n == 1 or rng.random() < 0.5) else sorted(rng.sample(range(n), rng.randrange(1, n)))
+    elif kind == 'refused-setter':
+        if comb == 'system': h['on'] = ['part', rng.choice(setparts)]
+        else: h['on'] = rng.choice([['set'], ['item', rng.randrange(n)], ['iter', rng.randrange(n)]])
+    elif kind == 'item-copy-rebased':
+        if comb == 'system':
+            i = rng.choice(setparts); h['part'] = i
+            h['item'] = rng.randrange(len(members[i]['rx']))
+        else: h['item'] = rng.randrange(n)
+        h['src'] = rng.choice(['item', 'iter', 'member']); h['how'] = rng.choice(['copy(basis)', 'copy-then-setter'])
+    elif kind == 'X-setter':
+        newx = lambda: rng.choice([0.0, 1.0, 0.5, round(rng.random(), 4), round(rng.random(), 4)])
+        if comb == 'single': h['via'] = 'self'; h['X'] = {'0': newx()}
+        elif comb in ('parallel', 'series'):
+            h['via'] = rng.choice(['set', 'set-array', 'item', 'iter-item'])
+            if h['via'] in ('set', 'set-array'): h['X'] = {str(k): newx() for k in range(n)}
+            else: h['X'] = {str(rng.randrange(n)): newx()}
+        else:
+            via = rng.choice(['system', 'direct-member', 'part', 'part-item'])
+            if via == 'direct-member' and not direct: via = 'system'
+            if via in ('part', 'part-item') and not setparts: via = 'system'
+            h['via'] = via
+            if via == 'system': h['X'] = {str(k): newx() for k in range(n)}
+            elif via == 'direct-member': h['X'] = {str(k): newx() for k in sorted(rng.sample(direct, rng.randrange(1, len(direct) + 1)))}
+            elif via == 'part':
+                i = rng.choice(setparts); h['X'] = {str(k): newx() for k in range(n) if part_of[k] == i}
+            else: h['X'] = {str(rng.choice(inset)): newx()}
+    # the applier
+    u = rng.random()
+    if comb == 'single' and kind == 'self-basis': h['call'] = 'conversion' if u < 0.25 else ('force' if u < 0.35 else 'call')
+    elif comb == 'system' and u < 0.25 and kind in ('member-basis-after', 'member-basis-before', 'X-setter'):
+        i = rng.randrange(len(members)); m = members[i]
+        j = None if m['k'] == 'single' else rng.randrange(len(m['rx']))
+        if m['k'] == 'parallel' and rng.random() < 0.4: j = None
+        h['call'] = 'flux'; h['flux'] = [i, j]
+    else: h['call'] = 'force' if u > 0.9 else 'call'
+    case['hist'] = h
+    return case
+
+
+def assemble(case, leaves):
+    """the container built from the given Reaction objects; returns (container, parts of a system)."""
+    comb = case['comb']
+    if comb == 'single': return leaves[0], []
+    if comb == 'parallel': return tmo.ParallelReaction(leaves), []
+    if comb == 'series': return tmo.SeriesReaction(leaves), []
+    parts = []; p = 0
+    for m in case['members']:
+        rs = leaves[p:p + len(m['rx'])]; p += len(m['rx'])
+        parts.append(rs[0] if m['k'] == 'single' else (tmo.ParallelReaction(rs) if m['k'] == 'parallel' else tmo.SeriesReaction(rs)))
+    return tmo.ReactionSystem(*parts), parts
+
+
+def with_X(case, newX):
+    """the case with the conversions of the given leaves (flat index) replaced."""
+    k = 0
+    def upd(d):
+        nonlocal k
+        d = dict(d)
+        if str(k) in newX: d['X'] = newX[str(k)]
+        k += 1
+        return d
+    if case['comb'] != 'system': return dict(case, members=[upd(d) for d in case['members']])
+    return dict(case, members=[dict(m, rx=[upd(d) for d in m['rx']]) for m in case['members']])
+
+
+def feasibility(case, expected, flows, MW):
+    """(negative total of the model's final flows in mol, the same in mass, most negative intermediate flow of the steps in sequence) - the rules of run_case."""
+    neg_mol = sum(v for v in expected.values() if v < 0)
+    neg_mass = sum(MW[k[1] if isinstance(k, tuple) else k] * v for k, v in expected.items() if v < 0)
+    inter_neg = 0.0
+    if case['comb'] in ('series', 'system'):
+        groups = [('series', case['members'])] if case['comb'] == 'series' else [(m['k'], m['rx']) for m in case['members']]
+        fl = flows
+        for kind_, ds in groups:
+            if kind_ == 'series':
+                for d in ds:
+                    fl = R.model_apply(fl, d)
+                    inter_neg = min(inter_neg, min(list(fl.values()) + [0.0]))
+            else:
+                fl = model({'comb': 'parallel', 'members': ds}, fl) if kind_ == 'parallel' else R.model_apply(fl, ds[0])
+                inter_neg = min(inter_neg, min(list(fl.values()) + [0.0]))
+    return neg_mol, neg_mass, inter_neg
+
+
+def is_basis_refusal(e):
+    return isinstance(e, (RuntimeError, ValueError, TypeError)) and 'basis' in str(e)
+
+
+def judge_history_call(case, rec, rx, th, MW, flows, htag, tag, call, state):
+    """apply rx (a reaction / set / system after its history) to a fresh stream of the case and judge the result against the dense model of `case`.
+    state 'consistent': every rule of run_case applies; state 'stale': the container was built before its members were re-based - a refusal or an
+    InfeasibleRegion is counted, a normal return is judged. Returns True when a normal return was judged."""
+    expected = model(case, flows)
+    neg_mol, neg_mass, inter_neg = feasibility(case, expected, flows, MW)
+    neg = min(neg_mol, neg_mass) if state == 'stale' else (neg_mass if case['basis'] == 'wt' else neg_mol)
+    obj, read = make_target(case, th, flows, MW)
+    key = f'history:{htag}/{tag}' + ('/force_reaction' if call == 'force' else '')
+    scale = max([abs(v) for v in flows.values()] + [1e-300])
+    try:
+        (rx.force_reaction if call == 'force' else rx)(obj)
+        raised = None
+    except InfeasibleRegion as e:
+        raised = e
+    except Exception as e:
+        if state == 'stale' and is_basis_refusal(e):
+            rec.hit('hist:stale-container-refused'); rec.refuse(f'a container whose members were re-based after it was built refused the call ({type(e).__name__}: bases differ)'); return False
+        rec.exception('react', e, what=f'reaction call after history ({key}) raised {type(e).__name__}: {str(e)[:200]}'); return False
+    if state == 'stale':
+        if raised is not None: rec.refuse('InfeasibleRegion from a container whose members were re-based after it was built (not judged)'); return False
+        if neg < -1e-13 or inter_neg < -1e-13: rec.refuse('container with re-based members on a feed the model finds infeasible (not judged)'); return False
+        rec.hit('hist:stale-container-returned')
+    else:
+        if call == 'force':
+            if raised is not None:
+                rec.check(False, 'react', f'force-raised-infeasible/{key}', 'force_reaction (documented to ignore feasibility checks) raised InfeasibleRegion'); return False
+            if neg < -1e-13 or inter_neg < -1e-13:
+                rec.refuse('force_reaction of a conversion the model finds infeasible (feasibility deliberately unchecked; not judged)'); return False
+        if raised is not None:
+            if neg >= -1e-13 and inter_neg < -1e-13: rec.refuse('InfeasibleRegion (an intermediate composition of the series would be negative)'); return False
+            if neg < -1e-13: rec.ok('must-raise'); rec.refuse('InfeasibleRegion (model agrees: a flow would be negative)')
+            else:
+                rec.check(False, 'react', f'spurious-infeasible/{key}', f'InfeasibleRegion raised although the dense model predicts no negative flow (most negative total {neg:.3g})',
+                          detail={'expected': {str(k): v for k, v in expected.items()}})
+            return False
+        if inter_neg < -1e-9 and neg >= -1e-9:
+            rec.refuse('series passes through a negative intermediate composition but ends non-negative (outside the decided domain)'); return False
+        if neg < -1e-9:
+            rec.check(False, 'must-raise', f'returned-negative/{key}', f'call returned normally although the conversion requires a negative flow (predicted negative total {neg:.3g})',
+                      detail={'expected': {str(k): v for k, v in expected.items()}, 'got': {str(k): v for k, v in read().items()}})
+            return False
+    got = read()
+    what = f'after the history [{htag}] (reactions defined by {case["basis"] if state != "stale" else "mol/wt"}, target {case["target"]}) '
+    bad = []; worst = 0.0
+    for k in set(got) | set(expected):
+        a, b = got.get(k, 0.0), expected.get(k, 0.0)
+        if b < 0 and b > -1e-9: b = 0.0
+        if abs(a - b) > 1e-11 * max(abs(a), abs(b)) + 1e-12 * scale: bad.append((str(k), a, b))
+        worst = max(worst, abs(a - b) / scale)
+    rec.check(not bad, 'species', key, what + f'species flows differ from feed + X*feed_r*nu of the reactions as defined: {bad[:4]}', residual=worst,
+              detail={'expected': {str(k): v for k, v in expected.items()}, 'got': {str(k): v for k, v in got.items()}})
+    negs = [(str(k), v) for k, v in got.items() if v < 0]
+    if call != 'force': rec.check(not negs, 'non-negative', key, what + f'negative flows after a normal return: {negs[:4]}')
+    m0, m1 = R.mass_of(flows, MW), R.mass_of(got, MW)
+    rec.check(abs(m1 - m0) <= 1e-11 * max(m0, m1), 'mass', key, what + f'total mass changed {m0!r} -> {m1!r}', residual=abs(m1 - m0) / max(m0, 1e-300))
+    a0, a1 = R.atoms_of(flows), R.atoms_of(got); amax = max(a0)
+    rec.check(all(abs(x - y) <= 1e-11 * max(abs(x), abs(y)) + 1e-12 * amax for x, y in zip(a0, a1)), 'atoms', key, what + f'element totals changed {a0} -> {a1}',
+              residual=max(abs(x - y) / max(abs(x), abs(y), 1e-300) for x, y in zip(a0, a1)))
+    if case['comb'] == 'single':
+        d = case['members'][0]; r = d['reactant']
+        k = (d['ph'][r], r) if d.get('ph') else r
+        f0 = flows.get(k, 0.0); f1 = got.get(k, 0.0)
+        rec.check(abs((f0 - f1) - d['X'] * f0) <= 1e-11 * f0 + 1e-300, 'reactant-consumed', key, what + f'reactant consumed {f0 - f1!r} != X*feed {d["X"] * f0!r}',
+                  residual=abs((f0 - f1) - d['X'] * f0) / max(f0, 1e-300))
+    e = sparse_invariant(obj.imol.data); rec.check(e is None, 'invariant', key, f'sparse invariant: {e}')
+    if case['target'] in ('stream-foreign', 'stream-subset'):
+        pk = stream_package(case).chemicals
+        rec.check(obj.chemicals is pk and obj.imol.chemicals is pk, 'package-restored', key, 'after the reaction call the stream is not back on its own property package')
+    return True
+
+
+def stale_flux(case, rec, rx, th, MW, flows, htag, tag, i, j):
+    """reactant_flux of a system whose members were re-based after it was built: a refusal is counted; a returned amount must be X * running reactant amount of the
+    addressed member (in the units of either basis: the system's and the member's differ, the documentation does not say which one is meant)."""
+    obj, read = make_target(case, th, flows, MW)
+    parts = case['members']
+    try:
+        got = rx.reactant_flux(obj, i) if j is None else rx.reactant_flux(obj, i, j)
+    except InfeasibleRegion:
+        rec.refuse('reactant_flux: a part ahead of the addressed one is infeasible on this feed'); return False
+    except Exception as e:
+        if parts[i]['k'] == 'series' and j is None and isinstance(e, ValueError) and 'subindex' in str(e):
+            rec.refuse('reactant_flux of a series part without subindex (documented ValueError)'); return False
+        if is_basis_refusal(e):
+            rec.hit('hist:stale-container-refused'); rec.refuse(f'reactant_flux of a system whose members were re-based after it was built refused ({type(e).__name__}: bases differ)'); return False
+        rec.exception('reactant-flux', e, what=f'reactant_flux after history ({htag}/{tag}) raised {type(e).__name__}: {str(e)[:200]}'); return False
+    fl = dict(flows); lowest = 0.0
+    for m in parts[:i]:
+        fl = model({'comb': m['k'], 'members': m['rx']}, fl); lowest = min([lowest] + list(fl.values()))
+    m = parts[i]
+    if m['k'] == 'series' and j is not None:
+        for d in m['rx'][:j]:
+            fl = R.model_apply(fl, d); lowest = min([lowest] + list(fl.values()))
+    if lowest < -1e-13:
+        rec.refuse('reactant_flux behind an infeasible part (not judged)'); return False
+    ds = m['rx'] if j is None else [m['rx'][j]]
+    def amount(d, f):
+        r = d['reactant']; k = (d['ph'][r], r) if d.get('ph') else r
+        return d['X'] * fl.get(k, 0.0) * (MW[r] if f else 1.0)
+    exps = [sum(amount(d, f) for d in ds) for f in (False, True)]
+    big = max([abs(v) * MW[k[1] if isinstance(k, tuple) else k] for k, v in fl.items()] + [1e-300])
+    ok = np.ndim(got) == 0 and any(abs(float(got) - x) <= 1e-11 * max(abs(x), abs(float(got))) + 1e-12 * big for x in exps)
+    rec.hit('hist:stale-container-returned')
+    rec.check(ok, 'reactant-flux', f'history:{htag}/{m["k"] + ("" if j is None else "-member")}/{tag}',
+              f'after the history [{htag}] reactant_flux(index={i}, subindex={j}) = {got!r} but X * running reactant amount = {exps[0]!r} (mol) / {exps[1]!r} (mass)')
+    return True
+
+
+def run_hist(case, rec):
+    rec.begin_case(case)
+    th = R.thermo(); MW = R.mw(th)
+    h = case['hist']; kind = h['kind']; comb = case['comb']
+    B0 = case['basis']; B1 = 'wt' if B0 == 'mol' else 'mol'
+    phases = tuple(case.get('phases') or ('g', 'l'))
+    flows = feed_dict(case)
+    descs = leaves_of(case); n = len(descs)
+    tag = f'{comb}/{"tagged" if case["tagged"] else "phase-less"}'      # basis, kind of stream and a first call before the history are in the witness, not in the key
+    rec.hit('hist:' + kind)
+    if case['tagged']: rec.hit('hist:tagged')
+    if h.get('warm'): rec.hit('hist:after-first-call')
+    try:
+        leaves = [build_one(d, th, phases) for d in descs]
+    except Exception as e:
+        rec.exception('construct', e, what=f'constructing a reaction raised {type(e).__name__}: {str(e)[:200]}'); return
+    state = 'consistent'; final = B0; htag = kind; model_case = case
+    # -- before the container exists
+    if kind == 'member-basis-before':
+        try:
+            for k in h['which']: leaves[k].basis = B1
+        except Exception as e:
+            rec.exception('basis-setter', e, what=f'Reaction.basis = {B1!r} raised {type(e).__name__}: {str(e)[:200]}'); return
+        htag = 'member-basis-setter-before-construction'
+        if len(h['which']) == n: final = B1; rec.hit('hist:all-members-rebased-before')
+        else: state = 'mixed'; rec.hit('hist:some-members-rebased-before')
+    try:
+        rx, parts = assemble(case, leaves)
+    except Exception as e:
+        if state == 'mixed' and is_basis_refusal(e):
+            rec.hit('hist:mixed-bases-refused-by-constructor'); rec.refuse('set / system of reactions on different bases refused by the constructor (ValueError)'); return
+        rec.exception('construct', e, what=f'constructing {comb} from its reactions raised {type(e).__name__}: {str(e)[:200]}'); return
+    if state == 'mixed': state = 'stale'; htag += ':mixed-accepted'
+    # -- the container is used once before the history continues
+    if h.get('warm'):
+        objw, _ = make_target(case, th, flows, MW)
+        try: rx(objw)
+        except InfeasibleRegion: pass
+        except Exception as e:
+            if not (state == 'stale' and is_basis_refusal(e)):
+                rec.exception('react', e, what=f'first call ({tag}) raised {type(e).__name__}: {str(e)[:200]}'); return
+    # -- after the container exists
+    extra = None
+    try:
+        if kind == 'self-basis':
+            rx.basis = B1; final = B1; htag = 'self-basis-setter'
+            if h['roundtrip']: rx.basis = B0; final = B0; htag += '-roundtrip'; rec.hit('hist:roundtrip')
+        elif kind == 'member-basis-after':
+            for k in h['which']: leaves[k].basis = B1
+            htag = 'member-basis-setter-after-construction'
+            if h['roundtrip']:
+                for k in h['which']: leaves[k].basis = B0
+                htag += '-roundtrip'; rec.hit('hist:roundtrip')
+            else: state = 'stale'
+            if comb == 'system':
+                part_of = [i for i, m in enumerate(case['members']) for _ in m['rx']]
+                cls = 'direct-member' if any(case['members'][part_of[k]]['k'] == 'single' for k in h['which']) else 'set-part-member'
+                htag += ':' + cls; rec.hit('hist:system-' + cls)
+            else: rec.hit('hist:set-member')
+        elif kind == 'refused-setter':
+            on = h['on']
+            t = rx if on[0] == 'set' else (rx[on[1]] if on[0] in ('item', 'part') else list(rx)[on[1]])
+            htag = 'basis-setter-of-' + {'set': 'set', 'item': 'item', 'iter': 'item', 'part': 'set-part'}[on[0]]
+            try:
+                t.basis = B1
+                state = 'stale'; htag += ':accepted'           # accepted: whatever it did, the container must still act like its definition (or refuse)
+            except TypeError as e:
+                if 'basis' not in str(e): raise
+                rec.hit('hist:setter-refused'); rec.refuse('basis setter of a reaction set / item refused (TypeError)'); htag += ':refused'
+        elif kind == 'item-copy-rebased':
+            holder = parts[h['part']] if comb == 'system' else rx
+            p0 = sum(len(m['rx']) for m in case['members'][:h['part']]) if comb == 'system' else 0
+            src = leaves[p0 + h['item']] if h['src'] == 'member' else (holder[h['item']] if h['src'] == 'item' else list(holder)[h['item']])
+            if h['how'] == 'copy(basis)': cp = src.copy(basis=B1)
+            else:
+                cp = src.copy(); cp.basis = B1
+            htag = f'rebased-copy-of-{"member" if h["src"] == "member" else "item"}'
+            extra = (cp, descs[p0 + h['item']])
+        elif kind == 'X-setter':
+            via = h['via']; X = h['X']; htag = 'X-setter-via-' + via
+            vals = [X[str(k)] for k in range(n) if str(k) in X]
+            if via == 'self': rx.X = vals[0]
+            elif via == 'set': rx.X = vals
+            elif via == 'set-array': rx.X = np.array(vals)
+            elif via in ('item', 'iter-item'):
+                k = int(next(iter(X)))
+                (rx[k] if via == 'item' else list(rx)[k]).X = vals[0]
+            elif via == 'direct-member':
+                for k in X: leaves[int(k)].X = X[k]
+            else:
+                part_of = [i for i, m in enumerate(case['members']) for _ in m['rx']]
+                first = {i: part_of.index(i) for i in set(part_of)}
+                if via == 'system':
+                    rx.X = [X[str(first[i])] if m['k'] == 'single' else [X[str(first[i] + q)] for q in range(len(m['rx']))] for i, m in enumerate(case['members'])]
+                elif via == 'part':
+                    i = part_of[int(next(iter(X)))]; rx[i].X = vals
+                else:
+                    k = int(next(iter(X))); i = part_of[k]; rx[i][k - first[i]].X = vals[0]
+            model_case = with_X(case, X)
+    except Exception as e:
+        rec.exception('setter', e, what=f'history step [{kind}] ({tag}) raised {type(e).__name__}: {str(e)[:200]}'); return
+    model_case = dict(model_case, basis=final)
+    call = h.get('call', 'call')
+    if call != 'call': rec.hit('hist:call:' + call)
+    if state == 'stale': rec.hit('hist:stale-container')
+    judged = False
+    if call == 'flux':
+        i, j = h['flux']
+        if state == 'stale': judged = stale_flux(model_case, rec, rx, th, MW, flows, htag, tag, i, j)
+        else:
+            obj, read = make_target(model_case, th, flows, MW)
+            scale = max([abs(v) for v in flows.values()] + [1e-300])
+            def restored(how):
+                if case['target'] in ('stream-foreign', 'stream-subset'):
+                    pk = stream_package(case).chemicals; s = read.stream
+                    rec.check(s.chemicals is pk and s.imol.chemicals is pk, 'package-restored', f'{how}/history:{htag}/{tag}', f'after {how} the stream is not back on its own property package')
+            siblings('flux', dict(model_case, flux=[i, j]), case, rec, rx, obj, read, flows, model(model_case, flows), th, MW, f'history:{htag}/{tag}', scale, restored)
+    elif call == 'conversion':
+        obj, read = make_target(model_case, th, flows, MW)
+        scale = max([abs(v) for v in flows.values()] + [1e-300])
+        def restored(how):
+            if case['target'] in ('stream-foreign', 'stream-subset'):
+                pk = stream_package(case).chemicals; s = read.stream
+                rec.check(s.chemicals is pk and s.imol.chemicals is pk, 'package-restored', f'{how}/history:{htag}/{tag}', f'after {how} the stream is not back on its own property package')
+        siblings('conversion', model_case, case, rec, rx, obj, read, flows, model(model_case, flows), th, MW, f'history:{htag}/{tag}', scale, restored)
+    else:
+        judged = judge_history_call(model_case, rec, rx, th, MW, flows, htag, tag, call, state)
+    if extra is not None:
+        # the re-based copy alone is the member reaction on the other basis
+        cp, d = extra
+        single = dict(case, comb='single', members=[d], basis=B1)
+        judge_history_call(single, rec, cp, th, MW, flows, htag + ':the-copy', f'single/{"tagged" if case["tagged"] else "phase-less"}', 'call', 'consistent')
+    if judged and any(0 < r['X'] and flows.get((r['ph'][r['reactant']], r['reactant']) if r.get('ph') else r['reactant'], 0) > 0 and len(r['st']) >= 3 for r in leaves_of(model_case)):
+        rec.mark_nontrivial(case_hash(case))
+
+
 def replay(case, rec):
     R.check_atoms()
-    (run_sum if case.get('t') == 'sum' else run_case)(case, rec)
+    (run_sum if case.get('t') == 'sum' else run_hist if case.get('t') == 'hist' else run_case)(case, rec)
 
 
 def run(rec, rng, tier, shard, nshards):
@@ -617,3 +1002,10 @@ def run(rec, rng, tier, shard, nshards):
             run_sum(case, rec)
         except Exception as e:
             rec.exception('harness', e, what=f'harness error: {type(e).__name__}: {e}')
+    for i in range(3000 if tier == 'quick' else 30000):
+        case = gen_hist(rng)
+        try:
+            run_hist(case, rec)
+        except Exception as e:
+            rec.exception('harness', e, what=f'harness error: {type(e).__name__}: {e}')
+        if i % 301 == 0: rec.sample(case)
